@@ -65,7 +65,7 @@ def validatorOf : String → Option (St → Bytes → Res × St)
   `utf8.offender <h> <i>` (is `i` the first offending position of `h`, by the grammar?)
   `utf8.step <rfc|py|ctable|cunrolled> <state> <octet>` · `utf8.row <tbl> <state>` (256 successors)
   `utf8.cells <py|c>` (the raw table) · `utf8.consts`
-  `utf8.validate.<py|rfc> <h>…` · `utf8.validate.nvx <impl> <h>…` · `utf8.validate.nvxfixed <impl> <h>…`
+  `utf8.validate.<py|rfc> <h>…` · `utf8.validate.nvx <impl> <h>…` · `utf8.validate.nvxlegacy <impl> <h>…` (pre-c2c187d5 behaviour)
       → `v e cur total;…;… | state index` (one tuple per call, then the carried state)
   `utf8.judge <v,e,cur,total;…|-> <h>…` → `ok` or `<call>:<reason>` (conformance of reported results with the Spec)
   `utf8.enum <spec|py|rfc|nvx1|nvx2> <n> <prefix>` → one verdict character per string `prefix ++ x`, `|x| = n ≤ 2` -/
@@ -82,13 +82,13 @@ def handle : List String → Option String
       pure (String.intercalate "," ((List.range 256).map (fun o => toString (f s o))))
   | ["utf8.cells", "py"] => some (String.intercalate "," ((List.range Gen.tablePyLen).map (fun i => toString (Gen.tablePy i))))
   | ["utf8.cells", "c"] => some (String.intercalate "," ((List.range Gen.tableCLen).map (fun i => toString (Gen.tableC i))))
-  | ["utf8.consts"] => some s!"{Gen.pyAccept} {Gen.pyReject} {Gen.cAccept} {Gen.cReject} {Gen.tablePyLen} {Gen.tableCLen}"
+  | ["utf8.consts"] => some s!"{Gen.pyAccept} {Gen.pyReject} {Gen.cAccept} {Gen.cReject} {Gen.tablePyLen} {Gen.tableCLen} {boolStr Gen.tableLoopGuardsReject} {boolStr Gen.unrolledLoopGuardsReject}"
   | "utf8.validate.py" :: hs => do let cs ← decodeAll hs; pure (seqStr (feed validatePy .init cs))
   | "utf8.validate.rfc" :: hs => do let cs ← decodeAll hs; pure (seqStr (feed validateRfc .init cs))
   | "utf8.validate.nvx" :: impl :: hs => do
       let impl ← impl.toNat?; let cs ← decodeAll hs; pure (seqStr (feed (validateNvx impl) .init cs))
-  | "utf8.validate.nvxfixed" :: impl :: hs => do
-      let impl ← impl.toNat?; let cs ← decodeAll hs; pure (seqStr (feed (validateNvxFixed impl) .init cs))
+  | "utf8.validate.nvxlegacy" :: impl :: hs => do
+      let impl ← impl.toNat?; let cs ← decodeAll hs; pure (seqStr (feed (validateNvxLegacy impl) .init cs))
   | "utf8.judge" :: rs :: hs => do
       let rs ← parseResList rs; let cs ← decodeAll hs
       match judge [] 0 cs rs with
